@@ -154,6 +154,10 @@ def raw_family_case(rng, fam, violate):
             elif j == 1: bn += 4
             elif j == 2: dn = 4 * d + ((qd + 1) % 4)
             else: qc = (qc + 1) % R
+            # the altered quad triple may satisfy the identity again (e.g. (0,0,0) does for EVERY q_c): decide, don't assume
+            qa2, qb2, qd2 = (an - 4 * a) % R, (bn - 4 * b) % R, (dn - 4 * d) % R
+            if (qa2 < 4 and qb2 < 4 and qd2 < 4 and cw == qa2 * qb2 % R and delta_xor_and(qa2, qb2, cw, qd2, qc) == 0):
+                violate = False
         q[5] = qc; q[8] = rng.choice([1, R - 1, 3])
         ws = [p.w(x) for x in (a, b, cw, d)]
         nx = [p.w(an), p.w(bn), p.w(rng.fe()), p.w(dn)]
